@@ -6,18 +6,11 @@ open ILV ILV.DL ILV.Engine ILV.Drv.C01
 def runW (cfg : Cfg) (p : Program) (edb : DB) : String :=
   (Engine.run cfg Sip.hashTuple (fun _ ts => ts) fuelDefault p edb).toWire
 
-/-- some head takes the partitioned path (`num_workers > 1`, no recursion, no join/antijoin in
-    its tree) and has an aggregate clause. -/
-def aggregateUnderPartitioning (cfg : Cfg) (p : Program) : Bool :=
-  cfg.workers > 1 && (heads p).any (fun h =>
-    !selfRec p h && parSafe (clausesOf p h) && (clausesOf p h).any Rule.hasAgg)
-
 def verdict (cfg : Cfg) (p : Program) (impl : String) : String × Bool :=
   match impl.splitOn " / " with
   | [a, b] =>
     let nt := cfg.workers > 1 && (heads p).any (fun h => !selfRec p h && parSafe (clausesOf p h)) && a != "{}" && !a.startsWith "err:"
     if a == b then (specOk, nt)
-    else if aggregateUnderPartitioning cfg p then (specFail "aggregate_under_partitioning" s!"one={a}", nt)
     else (specFail "unclassified" s!"one={a}", nt)
   | _ => (specFail "unclassified" "unparsable-impl-output", false)
 
